@@ -138,11 +138,22 @@ func TestC07(t *testing.T) {
 
 func TestC08(t *testing.T) {
 	runProp(t, propSpec{id: "C08",
-		rule: "same engine on target/source table pairs with block, cascade and cascade-update foreign keys, composite and self-referencing keys, values with zero bytes; oracle = every committed model state has a target row for every non-empty foreign key value; source writes without target and target deletes/updates with non-cascading sources must be refused; cascades change exactly the matching sources (own view and committed state compared with the model). Non-trivial: an operation cascaded or was refused by a foreign key; distinct by program.",
+		rule: "same engine on target/source table pairs with block, cascade and cascade-update foreign keys, composite and self-referencing keys, values with zero bytes; oracle = every committed model state has a target row for every non-empty foreign key value; source writes without target and target deletes/updates with non-cascading sources must be refused; cascades change exactly the matching sources (own view and committed state compared with the model). Non-trivial: a change of a target row that has source rows cascaded or was refused; distinct by program.",
 		opts: GenOpts{World: WorldOpts{Fkeys: true, SelfRef: true, EmptyKey: false, MaxTabs: 3}, Slots: 3, MaxInstrs: 40, ValRange: 7,
 			Weights: map[string]int{"output": 18, "update": 12, "delete": 12}},
-		nt:    func(l map[string]int) bool { return l["cascade_ops"] > 0 || l["refused_fk"] > 0 },
+		nt:    func(l map[string]int) bool { return l["cascade_ops"] > 0 || l["refused_target_change_with_sources"] > 0 },
 		quick: 1500, thorough: 20000})
+}
+
+func TestC44(t *testing.T) {
+	runProp(t, propSpec{id: "C44",
+		rule: "same engine with Trigger_<table> globals (Go callables recording (transaction, old, new)) on a generated subset of tables, optionally throwing for rows with a generated key value; changes through the transaction API, through query statements (DoAction delete/update) and through cascades; nested DisableTrigger/EnableTrigger; oracle = per operation the multiset of trigger calls equals the row changes predicted by the model (none for identical updates, none while disabled, transaction argument = the changing transaction), a throwing trigger's exception reaches the caller and after rollback nothing is visible. Non-trivial: a cascaded change on a table with a trigger, or a trigger threw, or calls were suppressed while disabled; distinct by program.",
+		opts: GenOpts{World: WorldOpts{Fkeys: true, SelfRef: true, EmptyKey: false, MaxTabs: 3}, Slots: 3, MaxInstrs: 40, ValRange: 7, Triggers: true,
+			Weights: map[string]int{"output": 16, "update": 10, "delete": 10, "action": 8, "trigoff": 3, "trigon": 3, "scan": 3, "lookup": 3}},
+		nt: func(l map[string]int) bool {
+			return l["trigger_cascaded_calls"] > 0 || l["trigger_threw"] > 0 || l["trigger_suppressed_while_disabled"] > 0
+		},
+		quick: 1200, thorough: 15000})
 }
 
 var _ = fmt.Sprint
